@@ -62,7 +62,7 @@ def spec_files(ctx):
     specs = list(QUICK_FILES)
     if True:
         rng = ctx.rng_global('files')
-        n_raw, n_ipm = (44, 8) if ctx.tier == 'thorough' else (14, 3)
+        n_raw, n_ipm = (260, 40) if ctx.tier == 'thorough' else (14, 3)
         pool = [1, 2, 3, 4, 5, 996, 1000, 1003, 1004, 1005, 1006, 1007, 1008, 1009, 1010, 1011, 1012, 1013, 1014, 1015,
                 1016, 2016, 2020, 2021, 2022, 2024, 2026, 2028, 2030, 3036, 4040, 4096, 4100, 5056, 5500, 5996, 6000, 64, 4048]
         for j in range(n_raw):
